@@ -74,7 +74,9 @@ GLen == UNION {UNION {WithTruncs([v EXCEPT !.pl = p, !.ul = u, !.pairs = (p = 12
                : v \in {V(0, 0, 0, 0, 0, 0, 0, 17, 12), V(3, 4, 1, 1, 1, 0, 0, 17, 12)}}
 ScmpTypes == {1, 2, 4, 5, 6, 128, 129, 130, 131, 0, 99, 255}
 GScmp == UNION {WithTruncs([V(0, 3, pt, 2, 0, 0, 4, 202, p) EXCEPT !.st = t, !.pairs = (pt = 0)]) :
-                  t \in ScmpTypes, p \in {0, 3, 4, 7, 8, 9, 19, 20, 21, 23, 24, 25, 27, 28, 29, 40}, pt \in {0, 1}}
+                  t \in ScmpTypes,
+                  p \in (IF THOROUGH THEN {0, 3, 4, 7, 8, 9, 19, 20, 21, 23, 24, 25, 27, 28, 29, 40} ELSE {0, 3, 4, 7, 8, 19, 20, 23, 24, 27, 28, 40}),
+                  pt \in (IF THOROUGH THEN {0, 1} ELSE {0})}
 
 (* version nibble, other next headers, big payloads *)
 GMisc == {[V(0, 0, 0, 0, 0, 0, 0, nh, 16) EXCEPT !.ver = ver] : ver \in {0, 1, 15}, nh \in {0, 6, 17, 43, 201, 202, 203, 255}}
